@@ -116,7 +116,7 @@ def analyse(ck, tier, builds, prefix=''):
         except Unsupported as ex:
             ck.ob(base, 'UNDECIDED', f"analysis lost: {ex}")
     ck.note('worst_bound', float(worst))
-    ck.floor('kernels_interpreted', 7 * 2 * 4 * len(builds) if tier == 'quick' else 7 * 2 * 10 * len(builds))
+    ck.floor('kernels_interpreted', 7 * 2 * 10 * len(builds))
     ck.assumptions += ['visible u16 samples of an accepted Yuv are <= 2^n-1 (constructor check, C12)',
                        'A-geom: dimensions, strides and buffer lengths below 2^28']
     return None
